@@ -372,18 +372,182 @@ func ruleCollectWaits() check.Rule {
 	}
 }
 
+// WAIT-IMPLEMENTORS: every concrete Wait method of package ro is subscriptionImpl.Wait (checked by WAIT-SIGNAL) or
+// reaches it on every path.
+func ruleWaitImplementors() check.Rule {
+	return check.Rule{
+		Name:        "WAIT-IMPLEMENTORS",
+		NeedControl: true,
+		Doc:  "every method named Wait (and IsClosed) declared on a type of package ro that implements Subscription is subscriptionImpl's own, or a wrapper all of whose paths pass through the Wait/IsClosed of the Subscription it embeds or holds: a shortcut that returns on another condition (for instance the subscriber's status word, which flips before the terminal callback runs) lets Wait return before the subscription is closed",
+		Run: func(c *check.Ctx) {
+			m := c.M
+			p := m.Obj.Ro
+			info := p.TypesInfo
+			n := 0
+			for _, f := range p.Syntax {
+				for _, d := range f.Decls {
+					fd, ok := d.(*ast.FuncDecl)
+					if !ok || fd.Recv == nil || fd.Body == nil || fd.Name.Name != "Wait" {
+						continue
+					}
+					tname := load.RecvTypeName(fd.Recv.List[0].Type)
+					if tname == "subscriptionImpl" {
+						continue
+					}
+					tn, _ := p.Types.Scope().Lookup(tname).(*types.TypeName)
+					if tn == nil {
+						continue
+					}
+					sig, _ := info.Defs[fd.Name].Type().(*types.Signature)
+					if sig == nil || sig.Params().Len() != 0 || sig.Results().Len() != 0 {
+						continue
+					}
+					n++
+					key := "ro." + tname + ".Wait/delegates"
+					// a call of Wait on a Subscription-typed value that every path passes
+					var deleg *ast.CallExpr
+					ast.Inspect(fd.Body, func(x ast.Node) bool {
+						call, ok := x.(*ast.CallExpr)
+						if !ok {
+							return true
+						}
+						if sel, ok := ast.Unparen(call.Fun).(*ast.SelectorExpr); ok && sel.Sel.Name == "Wait" {
+							if cl := model.Callee(info, call); cl != nil {
+								if _, isSub := m.Obj.SubscriptionMethods[cl]; isSub {
+									deleg = call
+								}
+							}
+						}
+						return true
+					})
+					switch {
+					case deleg == nil:
+						c.Violation(key, fd.Pos(), "%s.Wait does not call the Wait of a Subscription: it cannot know when the subscription is closed", tname)
+					case !mustPass(fd.Body, deleg):
+						c.Violation(key, fd.Pos(), "%s.Wait returns on some path without waiting on its Subscription: Wait can return before the subscription is closed (for instance while the terminal callback is still running)", tname)
+					default:
+						c.OK(key, fd.Pos(), "every path waits on the underlying Subscription")
+					}
+				}
+			}
+			c.Inc("wait_wrappers", n)
+		},
+	}
+}
+
+// CALLBACK-REENTRANCY: a callback may call Unsubscribe; the teardown a subject registers for its subscriber must be
+// able to run from inside any notification the subject sends.
+func ruleCallbackReentrancy() check.Rule {
+	return check.Rule{
+		Name: "CALLBACK-REENTRANCY",
+		Doc:  "for every subject, the locks taken by the teardown it registers on a subscriber's subscription (observer removal) are not held while it notifies a stored observer outside its Subscribe method: Unsubscribe called from inside a callback runs that teardown synchronously and would otherwise dead-lock on the subject's non-reentrant mutex",
+		Run: func(c *check.Ctx) {
+			m := c.M
+			p := m.Obj.Ro
+			info := p.TypesInfo
+			h := newHeldDB(m)
+			for _, tname := range subjectTypes(m) {
+				// locks taken by teardown literals registered with Add in the Subscribe methods
+				tdLocks := lockset.Set{}
+				for _, fd := range methodsOf(p, tname) {
+					if fd.Body == nil || !(fd.Name.Name == "Subscribe" || fd.Name.Name == "SubscribeWithContext") {
+						continue
+					}
+					rv := recvObj(info, fd)
+					ast.Inspect(fd.Body, func(x ast.Node) bool {
+						call, ok := x.(*ast.CallExpr)
+						if !ok {
+							return true
+						}
+						sel, ok := ast.Unparen(call.Fun).(*ast.SelectorExpr)
+						if !ok || sel.Sel.Name != "Add" || len(call.Args) != 1 {
+							return true
+						}
+						lit, ok := ast.Unparen(call.Args[0]).(*ast.FuncLit)
+						if !ok {
+							return true
+						}
+						res := lockResult(p, lit)
+						for _, op := range res.Ops {
+							if op.Kind == "Lock" || op.Kind == "RLock" {
+								for k := range normSet(lockset.Set{op.Key: true}, rv) {
+									tdLocks[k] = true
+								}
+							}
+						}
+						return true
+					})
+				}
+				key := "ro." + tname + "/teardown-lock-free-delivery"
+				if len(tdLocks) == 0 {
+					c.OK(key, p.Types.Scope().Lookup(tname).Pos(), "the subscriber teardown takes no subject lock (delivery under the mutex cannot dead-lock with it)")
+					continue
+				}
+				bad := false
+				for _, fd := range methodsOf(p, tname) {
+					if fd.Body == nil || fd.Name.Name == "Subscribe" || fd.Name.Name == "SubscribeWithContext" {
+						continue
+					}
+					rv := recvObj(info, fd)
+					ast.Inspect(fd.Body, func(x ast.Node) bool {
+						call, ok := x.(*ast.CallExpr)
+						if !ok || bad {
+							return true
+						}
+						name, isObs := m.Obj.ObserverMethods[model.Callee(info, call)]
+						if !isObs || notifKind(name) < 0 {
+							return true
+						}
+						sel := ast.Unparen(call.Fun).(*ast.SelectorExpr)
+						if id, ok := ast.Unparen(sel.X).(*ast.Ident); ok && objOf(info, id) == rv {
+							return true
+						}
+						c.Inc("subject_deliveries_checked", 1)
+						held := h.heldNorm(p, call)
+						for k := range tdLocks {
+							if held[k] {
+								bad = true
+								c.Violation(key, call.Pos(), "%s notifies an observer while holding %s, which the subscriber's teardown also takes: an observer that unsubscribes from inside this callback (directly or through Take/First downstream) dead-locks", fd.Name.Name, k)
+							}
+						}
+						return true
+					})
+				}
+				if !bad {
+					c.OK(key, p.Types.Scope().Lookup(tname).Pos(), "no stored observer is notified while a lock of the subscriber teardown (%s) is held", tdLocks)
+				}
+			}
+		},
+	}
+}
+
 func C06() *check.Property {
 	return &check.Property{
 		ID:       "C06",
 		Title:    "Unsubscribe cuts delivery; IsClosed, Wait and Collect tell the truth",
 		Patterns: CorePatterns,
 		Scope:    []string{ro},
-		Rules:    []check.Rule{ruleUnsubFlipsFirst(), ruleNoProducerLockInQueries(), ruleSelfUnsubscribe(), ruleWaitSignal(), ruleCollectWaits(), ruleFinalizerDiscipline(), ruleGatesOf(false)},
+		Rules:    []check.Rule{ruleUnsubFlipsFirst(), ruleNoProducerLockInQueries(), ruleSelfUnsubscribe(), ruleWaitSignal(), ruleCollectWaits(), ruleFinalizerDiscipline(), ruleGatesOf(false), ruleWaitImplementors(), ruleCallbackReentrancy()},
 		Explanation: "Static ordering / who-may-lock checks over subscriber.go, subscription.go and observable.go. Unsubscribe closes the status word (won compare-and-swap) before running finalizers, so with the Next gate of C01 a notification whose emission starts after Unsubscribe returned " +
 			"is refused; the query methods and Unsubscribe never take the producer lock (callable from inside a callback); terminal notifications are delivered before the subscriber closes itself; Wait blocks only on a buffered channel signalled solely by a teardown it registers " +
-			"(run at once if already closed), so it returns iff the subscription is or gets closed; Collect waits on the collecting subscription before every return and returns exactly what its observer gathered; Unsubscribe is idempotent (FINALIZER-DISCIPLINE).",
+			"(run at once if already closed), so it returns iff the subscription is or gets closed; Collect waits on the collecting subscription before every return and returns exactly what its observer gathered; Unsubscribe is idempotent (FINALIZER-DISCIPLINE); no other type shortcuts Wait (WAIT-IMPLEMENTORS); no subject notifies an observer while holding a lock its subscriber teardown takes, so Unsubscribe from inside a callback cannot dead-lock (CALLBACK-REENTRANCY).",
 		NotDecided:  "the real-time ordering 'began afterwards' itself (follows from the compare-and-swap and the gate; argued, not model-checked); concurrent callers beyond the guarded-by discipline.",
 		Assumptions: []string{"sync/atomic, sync.Mutex and channel semantics"},
-		Floors:      map[string]int{"query_methods": 4, "gated_calls": 3, "field_accesses": 8},
+		Floors:      map[string]int{"query_methods": 4, "gated_calls": 3, "field_accesses": 8, "subject_deliveries_checked": 3},
+		Controls:    map[string]string{"zz_verif_controls_c06.go": roControl(controlsC06)},
 	}
 }
+
+const controlsC06 = `
+type verifControlWaiter struct {
+	Subscription
+	closed int32
+}
+
+func (w *verifControlWaiter) Wait() {
+	if atomic.LoadInt32(&w.closed) != 0 {
+		return
+	}
+	w.Subscription.Wait()
+}
+`
